@@ -1,5 +1,8 @@
 pub mod borrow;
 pub mod exec;
+pub mod memory;
 pub mod multi_gen;
 pub mod populations;
 pub mod registry;
+pub mod templates;
+pub mod templates_extra;
